@@ -422,7 +422,7 @@ func (x *Exec) specBin(sc *specScope, n *EBin, hint types.Type) Value {
 			if isNilConst(b) || isUntypedNil(b) {
 				eq = Eq(a.L[0], IntLit(0))
 			} else {
-				eq = And(Eq(a.L[0], b.L[0]), Eq(a.L[1], b.L[1]))
+				eq = x.ifaceEq(a, b)
 			}
 		case len(a.L) == 1 && a.L[0] == nil && a.Loc != nil && (isUntypedNil(b) || isNilConst(b)):
 			eq = False // the address of a field or element is never nil
@@ -588,10 +588,7 @@ func (x *Exec) specCall(sc *specScope, n *ECall, hint types.Type) Value {
 		if !ok {
 			unsup("spec: typeis needs a string literal")
 		}
-		T := x.basicType(lit.Text)
-		if T == nil {
-			T = x.lookupType(lit.Text)
-		}
+		T := x.specType(sc, lit.Text)
 		if T == nil {
 			unsup("spec: typeis unknown type %s", lit.Text)
 		}
